@@ -92,13 +92,16 @@ def check_module(module, thunks, expected, descr, case, stats_classes):
     return len(p)
 
 
+PARAM_KINDS = ['conjunction_implies_nth', 'or_move_to_front', 'and_move_to_front', 'reduce_n', 'merge_clauses', 'trivial_clause']
+
+
 @st.composite
-def cases(draw, only=None):
+def cases(draw, only=None, param=None):
     kind = draw(st.integers(0, 19))
-    if only is not None or kind < 18:
+    if param is None and (only is not None or kind < 18):
         app = S.draw_app(draw, CFG, depth=draw(st.integers(1, 3)), only=only)
         return {'kind': 'app', 'app': app}
-    which = draw(st.sampled_from(['conjunction_implies_nth', 'or_move_to_front', 'and_move_to_front', 'reduce_n', 'merge_clauses', 'trivial_clause']))
+    which = param or draw(st.sampled_from(PARAM_KINDS))
     n = draw(st.integers(1, 3))  # proofs grow explosively with the number of terms (n = 5 takes minutes)
     terms = [S.draw_arg_pattern(draw, CFG, draw(st.integers(0, 1))) for _ in range(n)]
     # operands that themselves have the shape of the lemma's connective (written with the notation or unfolded)
@@ -214,6 +217,13 @@ def shard(stats: Stats, shard_i, nshards, seed, tier):
     for idx, ent in enumerate(S.catalogue()):
         if idx % nshards == shard_i:
             common.run_given(stats, common.derive_seed(seed, ent.name), per_entry, cases(only=ent), body)
+            if stats.violations:
+                return
+    # the parametric entry points get their own budget too (cheap ones more)
+    for idx, which in enumerate(PARAM_KINDS):
+        if (idx + 7) % nshards == shard_i:
+            budget = per_entry * (4 if which in ('conjunction_implies_nth', 'merge_clauses') else 1)
+            common.run_given(stats, common.derive_seed(seed, which), budget, cases(param=which), body)
             if stats.violations:
                 return
     common.run_given(stats, seed, mix, cases(), body)
